@@ -37,6 +37,7 @@ INITS = {
     "ties": (np.array([[0.0, 1.0], [2.0, 1.0], [2.0, 5.0], [1.0, 3.0]]), np.array([0, 1, 1, -1])),
     "d1": (np.array([[1.0], [4.0], [2.0]]), np.array([2, 0, -1])),
     "ints": (np.array([[1, 3], [6, 2], [3, 3]]), np.array([0, 1, 1])),       # integer-valued sample array (dtype int)
+    "far": (np.array([[1048576.0, 1.0], [1048578.0, 3.0], [1048577.5, 1.0]]), np.array([1, 0, 1])),   # offset large compared with the extent
 }
 OPS = ["sr01", "sr-12", "sr01_override", "sf2", "sf_neg", "sf_vec", "sf_vec_neg", "shift.5", "shift_vec", "revert", "shuffle_rev", "shuffle_rot", "mbf",
        "split_labels_cat", "split_pieces.5_cat", "split_pieces0_cat", "split_pieces1_cat", "split_nolabel_cat",
@@ -348,7 +349,7 @@ def main(ctx):
     ctx.add_sample({"init": "two", "sequence": ["sr01", "cat_diff_scaled"]})
     ctx.bounds = {"depth": 4 if ctx.tier == "quick" else 5, "alphabet": OPS, "initial_sets": sorted(INITS), "sequences_executed": total}
     return ctx.finish(
-        rule="every operation sequence up to the stated depth over the 31-operation alphabet on 6 initial data sets (one case = all "
+        rule="every operation sequence up to the stated depth over the 31-operation alphabet on 7 initial data sets (one case = all "
              "completions of a prefix; evaluations = executed operations), lock-step with the reference model after every step",
         assumptions=["revert-restores-original is only demanded while no sample was removed since the first scaling (the statement lists "
                      "scalings, shifts and factors 'in between')", "an exception on an EMPTY set counts as refusal of a degenerate input",
